@@ -80,7 +80,7 @@ type SpecFunc struct {
 	Opaque bool
 }
 
-var kwRe = regexp.MustCompile(`^(func|spec|readers|writers|callers|between|paired|deferredonly|safederef|preserved|internal|inline|eosexit|requires|ensures|decreases|loop|safe|modular|terminates|witness|witnessgo|unordered|usesonly|mapwrite|callsite|nobody|sitesonly|end)\b`)
+var kwRe = regexp.MustCompile(`^(func|spec|readers|writers|callers|stateless|between|paired|deferredonly|safederef|preserved|internal|inline|eosexit|requires|ensures|decreases|loop|safe|modular|terminates|witness|witnessgo|unordered|usesonly|mapwrite|globalstore|callsite|nobody|sitesonly|end)\b`)
 
 func (e *Engine) loadContracts() error {
 	e.contracts = map[string]*Contract{}
@@ -180,6 +180,11 @@ func (e *Engine) parseContractFile(file, pkgPath, data string) error {
 			if len(fields) >= 3 {
 				e.readers = append(e.readers, ReadersClause{Tags: tags, Global: fields[1], Funcs: strings.Split(fields[2], ",")})
 			}
+		case "stateless":
+			// stateless[Cxx] <pkg/path.Type>: the struct type has no fields
+			if len(fields) >= 2 {
+				e.stateless = append(e.stateless, StatelessClause{Tags: tags, Type: fields[1]})
+			}
 		case "callers":
 			// callers[Cxx] <function> <func>,<func>,...: the function is called directly only inside these functions
 			if len(fields) >= 3 {
@@ -267,7 +272,7 @@ func (e *Engine) parseContractFile(file, pkgPath, data string) error {
 			} else {
 				return fmt.Errorf("%s:%d: bad loop clause %q", file, l.line, kind)
 			}
-		case "mapwrite", "callsite":
+		case "mapwrite", "callsite", "globalstore":
 			// mapwrite[tags] <pkg.Global> <expr over key, value and locals>
 			// callsite[tags] <callee name> <expr over a_<param> and locals>
 			// assertion at every direct write to that map / direct call of that callee in this function
